@@ -1043,3 +1043,90 @@ def checkpoint_guard(model, info, art):
     except Exception as e:   # noqa
         return "confirmed", f"checkpoint(run={mkey!r}) while run {bkey!r} is bundling raised {type(e).__name__}: {e}"
     return "confirmed", f"checkpoint(run={mkey!r}) was accepted while run {bkey!r} was between create and save"
+
+
+def interruptions(model, info, art):
+    """C40 (contracts/C40.py: record_interruption): on a real RunBundler with recording enabled - after `before` (nothing / a monitor started /
+    a classic flyer described: both register another never-replayed stream), n - 1 earlier records and possibly a checkpoint - a 'pause'
+    record, a rewind and a 'resume' record must carry the stream's next two seq_nums, must not raise, and the RunStop must count all records"""
+    b, out = _bundler(True)
+    before, checkpoint = info.get("before", "nothing"), bool(info.get("checkpoint"))
+    try:
+        n = int((model or {}).get("next_interruptions", 1))
+    except (TypeError, ValueError):
+        n = 1
+    n = n if 1 <= n <= 40 else 3
+
+    class Sig:
+        name, parent, hints = "sig", None, {}
+
+        def describe(self):
+            return {"sig": {"dtype": "number", "shape": [], "source": "s"}}
+
+        def read_configuration(self):
+            return {}
+
+        describe_configuration = read_configuration
+
+        def subscribe(self, cb, **kw):
+            pass
+
+        def clear_sub(self, cb):
+            pass
+
+    class Fly:
+        name, parent, hints = "fly", None, {}
+
+        def describe_collect(self):
+            return {"flystream": {"fx": {"dtype": "number", "shape": [], "source": "fly"}}}
+
+        def read_configuration(self):
+            return {}
+
+        describe_configuration = read_configuration
+
+        def kickoff(self):
+            pass
+
+        def complete(self):
+            pass
+
+        def collect(self):
+            return iter(())
+    raised = []
+
+    async def go():
+        await b.open_run(Msg("open_run"))
+        if before == "monitor":
+            await b.monitor(Msg("monitor", Sig(), name="mon"))
+        elif before == "describe_collect":
+            await b._describe_collect(Fly())
+        for _ in range(n - 1):
+            b.record_interruption("earlier")
+        if checkpoint:
+            await b.reset_checkpoint_state_coro()
+        if info.get("bundling"):
+            await b.create(Msg("create", name="primary"))
+        for what in ("pause", "resume"):
+            if what == "resume":
+                b.rewind()
+            try:
+                b.record_interruption(what)
+            except Exception as e:     # noqa
+                raised.append(f"record_interruption({what!r}) raised {type(e).__name__}: {e}")
+        await b.close_run(Msg("close_run"))
+    asyncio.run(go())
+    obligation = art.get("obligation", "")
+    if "#frame[" in obligation:
+        ok = "interruptions" in b._unreplayed_streams
+        return ("contradicted" if ok else "confirmed"), f"after {before}: never-replayed streams {sorted(map(str, b._unreplayed_streams))}"
+    desc = [d for nm, d in out if nm == "descriptor" and d["name"] == "interruptions"][0]
+    seqs = [d["seq_num"] for nm, d in out if nm == "event" and d["descriptor"] == desc["uid"]]
+    stop = [d for nm, d in out if nm == "stop"][0]
+    cnt = stop["num_events"].get("interruptions")
+    if "close_run#ensures" in obligation:
+        ok = cnt == n + 1
+    else:
+        ok = not raised and seqs == list(range(1, n + 2))
+    return ("contradicted" if ok else "confirmed"), (f"before={before}, checkpoint={checkpoint}: interruption seq_nums {seqs}, "
+                                                    f"stop.num_events={stop['num_events']}; {'; '.join(raised)}")
